@@ -16,9 +16,10 @@ void strip_line_tokens_from_metadata(mmd_engine *e, token *metadata);
 #define VL 3
 #endif
 #ifndef TERM
-#define TERM 0          /* 0: EOF without newline, 1: "\n" then EOF, 2: "\n\n" (blank line), 3: "\n" + next key line, 4: "\r\n" then EOF */
+#define TERM 0          /* 0: EOF without newline, 1: "\n" then EOF, 2: "\n\n" (blank line), 3: "\n" + next key line, 4: "\r\n" then EOF,
+                           5: "\n" + a continuation line (of a non-plain kind: list marker, quote, table ...) that belongs to the value */
 #endif
-struct in { char v[VL]; } IN;
+struct in { char v[VL]; unsigned char cont_kind; } IN;
 #include "vh_in.h"
 size_t scan_meta_key(const char *c) { return 1; }
 size_t scan_meta_line(const char *c) { return 0; }
@@ -44,17 +45,27 @@ int main(void) {
 	src[n++] = '\n'; line_len = n; src[n++] = 'j'; src[n++] = ':'; src[n++] = 'x';
 #elif TERM == 4
 	src[n++] = '\r'; src[n++] = '\n'; line_len = n;
+#elif TERM == 5
+	src[n++] = '\n'; line_len = n; size_t cont_start = n; src[n++] = '*'; src[n++] = 'z'; src[n++] = '\n';
 #endif
 	src[n] = 0;
 	static mmd_engine e; e.dstr = d_string_new(src); e.metadata_stack = stack_new(0);
 	token *meta_block = token_new(BLOCK_META, 0, line_len);
 	token *line = token_new(LINE_META, 0, line_len); token_append_child(meta_block, line);
+#if TERM == 5
+	token *cont = token_new(IN.cont_kind == 0 ? LINE_LIST_BULLETED : (IN.cont_kind == 1 ? LINE_TABLE : (IN.cont_kind == 2 ? LINE_BLOCKQUOTE : LINE_PLAIN)), cont_start, 3); token_append_child(meta_block, cont); meta_block->len = n;
+#endif
 	strip_line_tokens_from_metadata(&e, meta_block);
 	CHECK(e.metadata_stack->size == 1, "one key extracted");
 	meta *m = stack_peek(e.metadata_stack);
 	CHECK(m != 0 && m->value != 0, "the key has a value");
-	size_t vl = 0; while (m->value[vl] && vl <= VL + 2) vl++;
+	size_t vl = 0; while (m->value[vl] && vl <= VL + 5) vl++;
+#if TERM == 5
+	ASSUME(IN.cont_kind <= 3);
+	CHECK(vl == VL + 3 && m->value[VL] == ' ' && m->value[VL + 1] == '*' && m->value[VL + 2] == 'z', "a continuation line is joined to the value with one separating space, whatever kind the classifier gave it");
+#else
 	CHECK(vl == VL, "the value has exactly the characters written in the source (none lost at end of input, none added)");
+#endif
 	for (int i = 0; i < VL; i++) if ((size_t) i < vl) CHECK(m->value[i] == IN.v[i], "the value is the source text");
 	COVER_OPT(IN.v[1] == ' '); COVER_OPT((unsigned char) IN.v[VL - 1] >= 0x80);
 	COVER(1);
